@@ -135,3 +135,73 @@ Proof.
   unfold s0. rewrite <- Hu. destruct s; destruct b; vm_compute; reflexivity.
 Qed.
 Print Assumptions restricted_definition_is_absent.
+
+(* ---- an include line restricted to other formats: nothing is searched, read or processed ---- *)
+Theorem restricted_include_is_absent pb a l c s o s1 f fs s' :
+  let b := BMacro (R "If") a l in
+  ifdepth s = 0%nat -> udef s = None -> elided s = false -> bf s = None ->
+  (inl s = true \/ assoc (R "If") (umacros s) = None) ->
+  parse_opts specOptIncludeFile a (set_regs b s) = (o, s1) -> opt "f" o = Some f ->
+  formats_of f s1 = (fs, s') -> existsb (str_eqb (format s)) fs = false ->      (* the restriction excludes the current format *)
+  exists s2, step pb b (c, s) = (c, s2) /\ s2 =c= s /\ panicked s2 = panicked s.
+Proof.
+  intros b Hd Hu He Hbf Hum Ho Hf Hfs Hno.
+  set (s0 := set_regs b s).
+  pose proof (parse_opts_eqd specOptIncludeFile a s0) as E1. fold s0 in Ho. rewrite Ho in E1. cbn [snd] in E1.
+  pose proof (formats_of_eqd f s1) as E2. rewrite Hfs in E2. cbn [snd] in E2.
+  set (s'' := if process s' then check_formats fs s' else s').
+  assert (E3 : s'' ~~ s0) by (unfold s''; destruct (process s'); [eapply eqd_trans; [apply check_formats_eqd|]|]; eapply eqd_trans; eauto).
+  assert (Hsk : not_export_format fs s'' = true).
+  { unfold not_export_format. rewrite (eqd_get format _ _ (fun x => eq_refl) E3). change (format s0) with (format s). rewrite Hno. reflexivity. }
+  exists (s'' <| elided := true |> <| elided := false |>). split; [|split].
+  - unfold step. fold s0. change (ifdepth s0) with (ifdepth s). rewrite Hd. cbn [Nat.ltb Nat.leb].
+    change (udef s0) with (udef s). rewrite Hu.
+    assert (Hl : (if inl s0 then None else assoc (R "If") (umacros s0)) = None).
+    { change (inl s0) with (inl s). change (umacros s0) with (umacros s). destruct Hum as [->| ->]; [reflexivity| destruct (inl s); reflexivity]. }
+    unfold b at 1. rewrite Hl.
+    change (control_builtin pb (R "If")) with (Some (macro_include pb)). cbv iota.
+    assert (Hbc : bf_check (R "If") s0 = s0) by (unfold bf_check; change (bf s0) with (bf s); rewrite Hbf; reflexivity). rewrite Hbc.
+    unfold macro_include. change (args s0) with a. rewrite Ho, Hf, Hfs. fold s''. rewrite Hsk.
+    unfold after_handler. change (elided (s'' <| elided := true |>)) with true. reflexivity.
+  - apply eqd_eqc in E3. unfold eqc in *.
+    transitivity (nfc s'' <| elided := false |>); [destruct s''; reflexivity|]. rewrite E3.
+    unfold s0. rewrite <- He. destruct s; destruct b; vm_compute; reflexivity.
+  - change (panicked (s'' <| elided := true |> <| elided := false |>)) with (panicked s'').
+    rewrite (eqd_get panicked _ _ (fun x => eq_refl) E3). reflexivity.
+Qed.
+Print Assumptions restricted_include_is_absent.
+
+(* ---- a filter line restricted to other formats, in the rendering pass: nothing is rendered, no filter is run ---- *)
+Theorem restricted_filter_line_is_absent pb a l c s o s1 f fs s' :
+  let b := BMacro (R "Ft") a l in
+  ifdepth s = 0%nat -> udef s = None -> elided s = false -> bf s = None -> process s = true ->
+  (inl s = true \/ assoc (R "Ft") (umacros s) = None) ->
+  parse_opts specOptFt a (set_regs b s) = (o, s1) -> opt "f" o = Some f ->
+  formats_of f s1 = (fs, s') -> existsb (str_eqb (format s)) fs = false ->
+  exists s2, step pb b (c, s) = (c, s2) /\ s2 =c= s /\ panicked s2 = panicked s.
+Proof.
+  intros b Hd Hu He Hbf Hpr Hum Ho Hf Hfs Hno.
+  set (s0 := set_regs b s).
+  pose proof (parse_opts_eqd specOptFt a s0) as E1. fold s0 in Ho. rewrite Ho in E1. cbn [snd] in E1.
+  pose proof (formats_of_eqd f s1) as E2. rewrite Hfs in E2. cbn [snd] in E2.
+  set (s'' := check_formats fs s').
+  assert (E3 : s'' ~~ s0) by (unfold s''; eapply eqd_trans; [apply check_formats_eqd|]; eapply eqd_trans; eauto).
+  assert (Hsk : not_export_format fs s'' = true).
+  { unfold not_export_format. rewrite (eqd_get format _ _ (fun x => eq_refl) E3). change (format s0) with (format s). rewrite Hno. reflexivity. }
+  exists (s'' <| elided := true |> <| elided := false |>). split; [|split].
+  - unfold step. fold s0. change (ifdepth s0) with (ifdepth s). rewrite Hd. cbn [Nat.ltb Nat.leb].
+    change (udef s0) with (udef s). rewrite Hu.
+    assert (Hl : (if inl s0 then None else assoc (R "Ft") (umacros s0)) = None).
+    { change (inl s0) with (inl s). change (umacros s0) with (umacros s). destruct Hum as [->| ->]; [reflexivity| destruct (inl s); reflexivity]. }
+    unfold b at 1. rewrite Hl.
+    change (control_builtin pb (R "Ft")) with (Some macro_ft). cbv iota.
+    assert (Hbc : bf_check (R "Ft") s0 = s0) by (unfold bf_check; change (bf s0) with (bf s); rewrite Hbf; reflexivity). rewrite Hbc.
+    unfold macro_ft. change (process s0) with (process s). rewrite Hpr. cbn [negb]. change (args s0) with a. rewrite Ho, Hf, Hfs. fold s''. rewrite Hsk.
+    unfold after_handler. change (elided (s'' <| elided := true |>)) with true. reflexivity.
+  - apply eqd_eqc in E3. unfold eqc in *.
+    transitivity (nfc s'' <| elided := false |>); [destruct s''; reflexivity|]. rewrite E3.
+    unfold s0. rewrite <- He. destruct s; destruct b; vm_compute; reflexivity.
+  - change (panicked (s'' <| elided := true |> <| elided := false |>)) with (panicked s'').
+    rewrite (eqd_get panicked _ _ (fun x => eq_refl) E3). reflexivity.
+Qed.
+Print Assumptions restricted_filter_line_is_absent.
